@@ -222,6 +222,7 @@ class History:
         if op.get("lazy"):
             # nobody looks at this handle (it stays as lazy as open_job left it) until an operation uses it
             h["unobserved"] = True
+            h["lazy_born"] = True
             self.cl.add("lazy_handle_left_alone")
 
     def op_new_gone_id(self, op):
@@ -308,6 +309,7 @@ class History:
         jid = oracle.job_id(h["sp"])
         try:
             got = h["job"].statepoint()
+            h["sp_seen"] = True
             if oracle.canon(got) != oracle.canon(h["sp"]):
                 self.mm("handle_sp", f"handle[{h['kind']}].statepoint() = {got!r}, model {h['sp']!r}")
         except Exception as e:
@@ -747,6 +749,10 @@ class History:
             # the only thing applied to stale handles (exercises known finding F-LOCKPOP).
             if not h.get("lockbroken") or oracle.job_id(h["sp"]) in self.model[h["p"]]:
                 return
+            if h.get("lazy_born") and not h.get("sp_seen"):
+                # a handle opened by id that never read its state point cannot know it once the directory is
+                # gone: JobsCorruptedError is the honest answer, nothing to apply
+                return
         from signac.errors import DestinationExistsError
 
         plan = self._new_sp(h, op)
@@ -1171,6 +1177,7 @@ class History:
                         self.mm("handle_id", f"live handle[{h['kind']}] path {job.path}")
                     if mj is not None:
                         sp = job.statepoint()
+                        h["sp_seen"] = True
                         if oracle.canon(sp) != oracle.canon(h["sp"]) or oracle.canon(dict(job.cached_statepoint)) != oracle.canon(h["sp"]):
                             self.mm("handle_sp", f"live handle[{h['kind']}] statepoint {sp!r} / cached {dict(job.cached_statepoint)!r}, model {h['sp']!r}")
                         # the document is only observed through handles that already hold a document object
